@@ -55,7 +55,7 @@ def generate(repo="/repo", only=None, props=None, exact=False):
                 _, gmod, gfn = name.split(".", 2)
                 fi = reg.ghost_function(gmod, gfn)
             else:
-                fi = index.get(name)
+                fi = index.get(name.split("#")[0])     # "f#variant": the same function, another contract
             rec["fi"] = fi
             v = Verifier(index, reg, fi, c)
             v.run()
@@ -132,7 +132,17 @@ def attach_spec_axioms(reg, obligations):
         names = set()
         for c in ob.pc + [ob.goal]:
             names |= _decl_names(c, cache)
-        used = sorted(n for n in names if n in reg.z3_definitions)
+        # transitively: the definition of one spec function may mention another
+        used = set(n for n in names if n in reg.z3_definitions)
+        todo = list(used)
+        while todo:
+            n = todo.pop()
+            for label, f in reg.z3_definitions[n] + reg.z3_lemmas.get(n, []):
+                for m in _decl_names(f, cache):
+                    if m in reg.z3_definitions and m not in used:
+                        used.add(m)
+                        todo.append(m)
+        used = sorted(used)
         ob.uses_specs = used
         ob.n_axioms = 0
         for n in used:
@@ -266,11 +276,13 @@ def verify(repo="/repo", only=None, props=None, timeout_s=20, verbose=False, exa
     uses_cnt = any(o["uses_specs"] for o in obligations)
     lem = list(lemmas.obligations(reg)) if uses_cnt else []
     lem += lemmas.arith_obligations(reg)
+    attach_spec_axioms(reg, lem)
     if lem:
         for ob in lem:
             obligations.append({"name": ob.name, "props": list(ob.props), "loc": ob.loc,
                                 "function": "lemma", "kind": "lemma", "clause": ob.clause, "path": 0,
                                 "trivial": False, "vacuous": False, "uses_specs": [],
+                                "n_axioms": getattr(ob, "n_axioms", 0),
                                 "smt2": solve.to_smt2(ob.pc, ob.goal)})
     t0 = time.time()
     res = solve.discharge_texts(obligations, timeout_s=timeout_s)
